@@ -133,6 +133,10 @@ def run(tier):
     ck = common.Check("C01", tier)
     n = 3 if tier == "quick" else 4
     # (i) groupings -- CrossHair
+    # the part of the statement that lives in pandas (row permutation, arbitrary index labels, debug output,
+    # losslessly converted dtypes): the concrete integration witness shared with C04 -- not a solver verdict
+    from gsv.checks import c04
+    c04.witnesses(ck)
     excl = GC.known_fg_classes(ck, "C01")
     from gsv import fgsym, groupsym
     groupsym.run_all(ck, n)
@@ -181,6 +185,9 @@ def run(tier):
 
 def replay(path):
     d = json.load(open(path))["replay"]
+    if d.get("witness"):
+        from gsv.checks import c04
+        return c04.replay(path)
     if "cond" in d:
         cex = {(int(k) if k.isdigit() else k): v for k, v in d["cex"].items()}
         rep = c12.replay_cex(d["cond"], cex, d["n"])
